@@ -391,6 +391,8 @@ static bool runPlanRouted(vh::Rng &r, long k, int n, int m) {
     return true;
 }
 
+#include "c19_planarise.h"   // planx-* classes: exact tie of OrthoPlanariser with Model/Planarise.lean (appended last in main)
+
 // ---- Tree::symmetricLayout fed directly (strict class) ------------------------------------------
 // parent[i] for i >= 1 (node 0 is the root); edges are directed parent -> child as Tree expects.
 static void genLayoutTree(vh::Rng &r, int shape, int n, std::vector<int> &parent) {
@@ -794,5 +796,6 @@ int main(int argc, char **argv) {
             vh::endCase();
         }
     }
+    k = runPlanX(a, k, thorough);   // planx-* (harness/c19_planarise.h); keep last so earlier case indices do not move
     return 0;
 }
